@@ -107,6 +107,7 @@ def gen_c01(tier, rng):
         ok8 = is_utf8(bytes.fromhex(parts[1][1:]))
         fams = ALL_BYTE['u'] + (ALL_UTF8['u'] if ok8 else [])
         cases.append('same.c03.' + rng.choice(fams) + '\t' + parts[1] + '\t' + parts[2])
+    cases += cons_cases(tier, rng, encs=('u',))
     return cases, dist
 
 
@@ -196,6 +197,31 @@ def seg_count(enc, s):
     return len(usegs(s, b'/' if enc == 'u' else b'/\\'))
 
 
+CONS_FAMS = {'u': ['u', 'bu', 'tu', 'tbu', 'pu', 'u8', 'b8u', 't8u', 'tb8u', 'p8'],
+             'w': ['w', 'bw', 'tw', 'tbw', 'w8', 'b8w', 't8w', 'tb8w']}
+
+
+def cons_cases(tier, rng, encs=('u', 'w'), n=None, same=False):
+    """self-consistency op (iterator std methods, comparisons between types, component Eq/Ord/Hash, platform = native,
+       parity of partially consumed Components) over every API family; with same=True the UTF-8 / typed families are
+       additionally put next to the byte family of their encoding"""
+    out = []
+    n = n or (4000 if tier == 'quick' else 40000)
+    for enc in encs:
+        pool = [x for x, _ in unary_paths(enc, 'quick', rng, {}, 0.1)]
+        for _ in range(n):
+            a = rng.choice(pool)
+            b = respell(a, enc, rng) if rng.random() < 0.6 else rng.choice(pool)
+            fam = rng.choice(CONS_FAMS[enc])
+            if '8' in fam and not (is_utf8(a) and is_utf8(b)):
+                fam = enc
+            op = 'cons.' + fam
+            if same and fam not in ('u', 'w'):
+                op = 'same.' + op
+            out.append(case(op, a, b))
+    return out
+
+
 def gen_c03(tier, rng):
     cases, dist = [], {}
     for enc in ('u', 'w'):
@@ -211,6 +237,7 @@ def gen_c03(tier, rng):
             for sc in scs:
                 for fam in fams_for(enc, [s], rng):
                     cases.append(case('c03.' + fam, s, sc))
+    cases += cons_cases(tier, rng)
     return cases, dist
 
 
@@ -424,6 +451,7 @@ def gen_c06(tier, rng):
         ok8 = all(is_utf8(bytes.fromhex(x[1:])) for x in parts[1:])
         fams = ALL_BYTE['u'] + (ALL_UTF8['u'] if ok8 else [])
         out.append('same.c06.' + rng.choice(fams) + '\t' + '\t'.join(parts[1:]))
+    out += cons_cases(tier, rng, encs=('u',))
     return out, dist
 
 
@@ -672,6 +700,13 @@ def gen_c20(tier, rng):
 
 
 
+def with_cons(g, encs=('u', 'w'), same=False):
+    def h(tier, rng):
+        cases, dist = g(tier, rng)
+        return cases + cons_cases(tier, rng, encs=encs, same=same), dist
+    return h
+
+
 GEN_NOTE = ('bounded-exhaustive strings over the bytes the parsers branch on (Unix {/ . a b NUL 0xFF}, Windows {\\ / . : ? a C} '
             'and 33 prefix seeds x suffixes over {\\ / . a}), structured random paths, a malformed stream, and UTF-8 inputs with 2-, 3- '
             'and 4-byte characters; the byte family always, the UTF-8 / runtime-typed families on a share of the cases')
@@ -702,20 +737,20 @@ PROPS = {
     'C02': P(gen_c02, 'Proved in Coq for all byte strings (Props/C02.v): the model prefix parser equals the declarative six-kind grammar, the component list equals the specification wspec, every prefix/root/absoluteness query equals its definition over that decomposition, drive letters are upper-case ASCII, at most one prefix and only first. The same specification is evaluated on the implementation output of every explored case (oracle_c02: components from both ends, 13 queries, try_from, prefix length/verbatim flag).', NOTE_CORR),
     'C03': P(gen_c03, 'Double-ended coherence: interleaving theorem over the generic core parser (CoreSched.sched_spec) instantiated for Unix and for the Windows body; offsets/conservation checked by correspondence.', NOTE_CORR),
     'C04': P(gen_pairs('c04'), 'Proved in Coq for all inputs (Props/C04.v): a checked push either fails and leaves the base byte-for-byte unchanged or succeeds with exactly the unchecked join, decided by the scan over the specification components of p (both encodings); the scan succeeds iff no prefix, no root, no normal name with a forbidden byte, and no .. outnumbering the normal names before it (Unix and Windows), otherwise it names the first offending component (Unix); containment: on success the result components begin with exactly the base components followed by p minus a leading . -- at Unix for every base, at Windows for every base without UNC/verbatim/device prefix (prefix-free not starting with two separators, or drive prefix X:). The remaining Windows bases are decided by oracle_c04 / oracle_c10 on every explored pair; base of exactly two separators = known finding D10.', NOTE_CORR),
-    'C05': P(gen_pairs('c05'), 'Proved in Coq for all byte strings, both encodings (Props/C05.v): equality iff equal specification component sequences (Windows prefixes by parsed kind), the order is the lexicographic lift of the component order and is total (antisymmetric, transitive, Equal iff equal), the hasher feed is the derived hash of the parsed prefix kind followed by the bytes of every non-root component and their total length, hence equal paths feed identical data (C05_unix_eq_same_hash, C05_windows_eq_same_hash, C05_windows_hash_feed; the separator scan is proved once for any separator test and normalisation flag). All closed under the global context; the same statements are evaluated on the implementation output (recorded Hasher calls) of every explored pair by oracle_c05.', NOTE_CORR),
+    'C05': P(with_cons(gen_pairs('c05')), 'Proved in Coq for all byte strings, both encodings (Props/C05.v): equality iff equal specification component sequences (Windows prefixes by parsed kind), the order is the lexicographic lift of the component order and is total (antisymmetric, transitive, Equal iff equal), the hasher feed is the derived hash of the parsed prefix kind followed by the bytes of every non-root component and their total length, hence equal paths feed identical data (C05_unix_eq_same_hash, C05_windows_eq_same_hash, C05_windows_hash_feed; the separator scan is proved once for any separator test and normalisation flag). All closed under the global context; the same statements are evaluated on the implementation output (recorded Hasher calls) of every explored pair by oracle_c05.', NOTE_CORR),
     'C06': P(gen_c06, 'Proved in Coq for all byte strings (Props/C06.v): the Gallina transcription of std::path (Components state machine, as_path trimming, parent, file_name, file_stem, extension, starts_with, ends_with, strip_prefix, eq, cmp, ancestors) and the typed-path model give the same answer: components from both ends, eq, cmp, has_root, file_name/stem/extension byte for byte, starts_with, ends_with; parent absent for both or for both a leading slice with all components but the last; ancestors chains pairwise equal paths; strip_prefix succeeds for both or neither with equal remainders as paths (bytes differ exactly in known class D8, refuted-witness lemma). The transcription is diffed against the real std::path on every explored case (pair.c06). Byte identity of the two parents is decided on explored cases only (C06_parent_bytes_partial).', NOTE_CORR),
     'C07': P(gen_c07, 'Proved in Coq (Props/C07.v): for EVERY history of push / pop / set_file_name / clear / extend / collect / join / with_file_name and every pair of component-equal start buffers, the typed-path buffer and the std::path::PathBuf transcription are component-equal after every step and every boolean result agrees (C07_history, by induction over the history); a non-empty push is the same byte function on both sides, also when std carries the extra trailing / left by an empty push (relation Rb, kept by push/clear/extend/collect). Every explored history is also run on the real std::path::PathBuf (pair.hist: booleans, component equality, byte equality after non-empty pushes). That pop/set_file_name keep the byte-level relation is decided on explored histories only (C07_bytes_partial).', NOTE_CORR),
     'C08': P(gen_c08, 'Proved in Coq for ALL pairs of byte strings: the model of WindowsEncoding::push equals the documented rule table Spec.join_spec (written over the grammar specification only), every history of pushes is the same fold of the table, empty b changes nothing, a prefixed b replaces a, the non-verbatim results are a (or its prefix) + optional separator + b, the verbatim step never lets a . or .. through (Props/C08.v: C08_bytes, C08_histories, C08_empty, C08_prefixed, C08_nonverbatim_bytes, C08_verbatim_step_clean; closed under the global context). join_spec itself is evaluated on the implementation output of every explored pair and push history (oracle_c08, oracle_hist). The component-level reading (a components followed by b components, a prefix followed by b for rooted b, bare drive without separator) is proved for all a without UNC/verbatim/device prefix (C08_comps_plain, C08_comps_disk, C08_comps_rooted_disk) and decided by the C10 oracle for the rest.', NOTE_CORR),
-    'C09': P(gen_unary('c09'), 'parent / ancestors / pop: proved from the back-step lemma of the core parser; tied to the code for all families.', NOTE_CORR),
-    'C10': P(gen_pairs('c10'), 'Proved in Coq (Props/C10.v): for any double-ended component iterator whose components are determined by their bytes, helpers::iter_after decides exactly the leading-run / trailing-run relation (C10_abstract_front); at Unix, for all byte strings: starts_with iff q components are a leading run of p, ends_with mirror image, strip_prefix succeeds iff starts_with and its remainder re-parses to the rest, equal paths start/end with each other, a joined with a relative b starts with a and stripping yields what b adds. For prefix-free Windows paths components are determined by their bytes and the same theorems hold over wspec (C10_windows_*_plain). With prefixes they are not: known finding D7; D10 and D15 are the two further Windows classes (refuted-witness lemmas); those paths are decided by oracle_c10 (component relations over the grammar spec, join-back, join consistency) on every explored pair.', NOTE_CORR),
+    'C09': P(with_cons(gen_unary('c09')), 'parent / ancestors / pop: proved from the back-step lemma of the core parser; tied to the code for all families.', NOTE_CORR),
+    'C10': P(with_cons(gen_pairs('c10')), 'Proved in Coq (Props/C10.v): for any double-ended component iterator whose components are determined by their bytes, helpers::iter_after decides exactly the leading-run / trailing-run relation (C10_abstract_front); at Unix, for all byte strings: starts_with iff q components are a leading run of p, ends_with mirror image, strip_prefix succeeds iff starts_with and its remainder re-parses to the rest, equal paths start/end with each other, a joined with a relative b starts with a and stripping yields what b adds. For prefix-free Windows paths components are determined by their bytes and the same theorems hold over wspec (C10_windows_*_plain). With prefixes they are not: known finding D7; D10 and D15 are the two further Windows classes (refuted-witness lemmas); those paths are decided by oracle_c10 (component relations over the grammar spec, join-back, join consistency) on every explored pair.', NOTE_CORR),
     'C11': P(gen_unary('c11'), 'Proved in Coq for all Unix byte strings (Props/C11.v): the normalised path read back is the lexical fold Spec.nfold of the input components, it contains no . or .., has the same root/absoluteness, and normalising again returns the same bytes (C11_unix_fold, C11_unix_clean, C11_unix_root, C11_unix_idempotent); the model fold equals Spec.nfold for any component list (C11_fold_is_nfold). Windows: the same three statements are proved for every prefix-free path whose names carry no drive look-alike (C11_windows_fold_plain, _idempotent_plain, _root_plain; C11_names_needed shows the hypothesis is necessary); paths with a prefix are decided by oracle_c11 on every explored well-formed path.', NOTE_CORR),
     'C12': P(gen_pairs('c12', second='names'), 'Proved in Coq for all inputs (Props/C12.v): file_name is the last component when it is a normal name and absent otherwise (both encodings); stem, a dot and the extension reproduce the name when an extension exists and the stem is the whole name otherwise; the four documented cases of the split; Unix replacement by a single valid name n: the components are the old ones with the last replaced by n, so the file name is n and the parent is the old parent, and without a file name the result is the old path joined with n. The Windows replacement is decided by oracle_c12 on every explored (path, name) pair.', NOTE_CORR),
     'C13': P(gen_c13, 'Proved in Coq for all Unix buffers and extensions (Props/C13.v): without a file name the call returns false and leaves the buffer untouched; with a file name it returns true and the bytes are everything before the name, the old stem and (for a non-empty extension) a dot and the extension, whatever separators or . segments trailed the name; read back, the components are the old ones with the last replaced by the new name, so file name = stem[.ext] and the parent is unchanged, for every separator-free extension outside the known class D13 (refuted-witness lemma C13_d13_refuted); the truncation point is a UTF-8 character boundary and the result valid UTF-8 (no panic in the String twin). Windows and byte-equality with std::path::PathBuf::set_extension are decided on every explored case (oracle_c13, pair.c13 against real std).', NOTE_CORR),
-    'C14': P(gen_c14, 'Proved in Coq (Props/C14.v): utf8_valid is the RFC 3629 chain of steps; validity is preserved by concatenation and by cutting next to an ASCII byte; Unix push/extend keep buffers valid; file name, stem and extension of a valid Unix path are valid; the set_extension truncation point is a character boundary and its result valid (no String::truncate panic). The faithfulness half (same bytes and outcome as the byte API) is decided by running every UTF-8 family next to the byte family on every explored case (same.*), the harness re-validating every &str it receives; conversions succeed exactly on valid UTF-8 (c14c).', NOTE_CORR),
-    'C15': P(gen_c15, 'PARTIAL. Proved: derive selects Windows exactly when the bytes start with a backslash or the grammar specification finds a prefix (Props/C15.v C15_derive); the dispatch table regenerated from src/typed/** and src/platform.rs on every run satisfies forwards-to-same-method / re-wraps-same-variant (translator obligations). The dispatch theorem is about a regex-extracted table, not about the semantics of match or of the impl_typed_fn! macro. NOT proved: that every typed / platform operation gives the same answer as the wrapped one -- in the model the typed layer is a two-arm match by definition; that sentence is decided by diffing every typed/platform family against the byte family of its encoding on every explored case, variant tags included.', NOTE_CORR, technique='machine-checked proof in Coq 8.16.1 for the part named in level_claimed.text; the remainder of the property is decided by differential correspondence on explored cases only (stated in level_note)', level='translation_validation'),
+    'C14': P(with_cons(gen_c14, same=True), 'Proved in Coq (Props/C14.v): utf8_valid is the RFC 3629 chain of steps; validity is preserved by concatenation and by cutting next to an ASCII byte; Unix push/extend keep buffers valid; file name, stem and extension of a valid Unix path are valid; the set_extension truncation point is a character boundary and its result valid (no String::truncate panic). The faithfulness half (same bytes and outcome as the byte API) is decided by running every UTF-8 family next to the byte family on every explored case (same.*), the harness re-validating every &str it receives; conversions succeed exactly on valid UTF-8 (c14c).', NOTE_CORR),
+    'C15': P(with_cons(gen_c15, same=True), 'PARTIAL. Proved: derive selects Windows exactly when the bytes start with a backslash or the grammar specification finds a prefix (Props/C15.v C15_derive); the dispatch table regenerated from src/typed/** and src/platform.rs on every run satisfies forwards-to-same-method / re-wraps-same-variant (translator obligations). The dispatch theorem is about a regex-extracted table, not about the semantics of match or of the impl_typed_fn! macro. NOT proved: that every typed / platform operation gives the same answer as the wrapped one -- in the model the typed layer is a two-arm match by definition; that sentence is decided by diffing every typed/platform family against the byte family of its encoding on every explored case, variant tags included.', NOTE_CORR, technique='machine-checked proof in Coq 8.16.1 for the part named in level_claimed.text; the remainder of the property is decided by differential correspondence on explored cases only (stated in level_note)', level='translation_validation'),
     'C16': P(gen_unary('c16', fam_filter=lambda f: f in ('u', 'w', 'u8', 'w8', 'tu', 'tw', 't8u', 't8w', 'tbu', 'tbw', 'tb8u', 'tb8w')), 'Encoding conversion: model of with_encoding(_checked) tied to the code in both directions and for UTF-8/typed forms; the property itself (same bytes to the own encoding, kinds and names kept, prefix dropped, rootedness, checked = unchecked and valid, failure on forbidden bytes) is evaluated over the specifications by oracle_c16 on every explored case; D9, D12, D14 are the known classes. Proved for all inputs (Props/C16.v): same encoding = same bytes; a Unix path whose names are file names in both encodings converts to a Windows path with the same kinds and names; a prefix-free Windows path converts to a Unix path with the same kinds and names; the round trip is an equal path; the checked Unix->Windows conversion succeeds with exactly the unchecked result, which is valid, and fails whenever a name holds a byte Windows forbids; D9 D12 D14 as refuted-witness lemmas. Prefixed Windows sources and the Windows->Unix checked form are decided on explored cases only.', NOTE_CORR),
     'C17': P(gen_c17, 'Validity predicate vs the forbidden-byte tables (regenerated from the source), all 256 byte values in each position.', NOTE_CORR),
     'C18': P(gen_c18, 'PARTIAL. Proved (Props/C18.v): the loops of the model terminate by themselves (fuel beyond the input length is irrelevant; every front step strictly shortens the input), the Windows parser never slices outside its input in any reachable state, pop truncates within bounds; C13 adds the set_extension character-boundary theorem. NOT proved: absence of panics in the Rust code itself (slice indexing, usize arithmetic, String::truncate are modelled only where a theorem names them), allocation failure, stack depth, run time. Those are decided by running every operation under catch_unwind and a watchdog, in release and debug builds, on the explored cases and on long inputs.', 'Panic-freedom of the implementation is observed, not proved; the model is total by construction, so model totality says nothing by itself. Trusted: Coq kernel, extraction, harness (catch_unwind, watchdog), driver.', impl_only_gen=gen_c18_impl_only, debug_build=True, oracle='nopanic', technique='machine-checked proof in Coq 8.16.1 for the part named in level_claimed.text; the remainder of the property is decided by differential correspondence on explored cases only (stated in level_note)', level='exploration'),
-    'C19': P(gen_c19, 'PARTIAL. Proved (Props/C19.v): utf8_valid is the RFC 3629 chain, the Gallina lossy decoding always yields valid UTF-8 and is the identity on valid input; to_str / to_string_lossy / Display of the implementation are compared with these definitions on every explored case. NOT proved: the round trips through Box / Rc / Arc / Cow / OsStr / std::path and the invariance of eq / ord / hash under clone and conversion -- in the model every wrapper is the identity on list byte, so a theorem there would be vacuous; they are unsafe pointer casts at run time. Those sentences are decided by the harness running every conversion chain on explored inputs.', 'The pointer-level conversions are runtime facts no Gallina model exhibits; evidence for them is differential only. Trusted: Coq kernel, extraction, harness, driver.', technique='machine-checked proof in Coq 8.16.1 for the part named in level_claimed.text; the remainder of the property is decided by differential correspondence on explored cases only (stated in level_note)', level='exploration'),
+    'C19': P(with_cons(gen_c19), 'PARTIAL. Proved (Props/C19.v): utf8_valid is the RFC 3629 chain, the Gallina lossy decoding always yields valid UTF-8 and is the identity on valid input; to_str / to_string_lossy / Display of the implementation are compared with these definitions on every explored case. NOT proved: the round trips through Box / Rc / Arc / Cow / OsStr / std::path and the invariance of eq / ord / hash under clone and conversion -- in the model every wrapper is the identity on list byte, so a theorem there would be vacuous; they are unsafe pointer casts at run time. Those sentences are decided by the harness running every conversion chain on explored inputs.', 'The pointer-level conversions are runtime facts no Gallina model exhibits; evidence for them is differential only. Trusted: Coq kernel, extraction, harness, driver.', technique='machine-checked proof in Coq 8.16.1 for the part named in level_claimed.text; the remainder of the property is decided by differential correspondence on explored cases only (stated in level_note)', level='exploration'),
     'C20': P(gen_c20, 'PARTIAL. Proved (Coq, vm_compute over a finite table regenerated from src/ on every run): every cfg / cfg_attr / cfg! occurrence the extractor finds is classified, and the only one that mentions feature std negatively is the crate-level no_std attribute, so no item has a body selected by the absence of std (obligation cfg_std_gates_positive; GenSpec.gates_ok_meaning states what the boolean means). NOT proved: that the two builds return identical results -- the Gallina model has no feature parameter, so no theorem can state it. That sentence is decided by building the harness with and without default features and diffing both transcripts against the one model and against each other on the explored cases.', 'The theorem is about a regex-extracted table (tools/translate.py is trusted; an unrecognised construct becomes PUnknown and fails the obligation). The behavioural claim is differential testing of two builds on explored cases, not a proof. Trusted: Coq kernel, translator, harness, driver.', builds=['std', ''], oracle='none', technique='machine-checked proof in Coq 8.16.1 for the part named in level_claimed.text; the remainder of the property is decided by differential correspondence on explored cases only (stated in level_note)', level='translation_validation'),
 }
